@@ -335,3 +335,124 @@ Proof.
   - exact (C16_simple_concat_index h 5 15 _ _ ex_concat_store k (ex_denotes15 h) (Nat.le_refl _)).
   - exact (C16_simple_concat_lookup h 5 sym 15 _ _ ex_concat_store (ex_denotes15 h) (Nat.le_refl _) ex_valid15).
 Qed.
+
+From GV Require Import Proofs.C16.ConcatInv Proofs.C16.ConcatBasic.
+
+(* ---- concatenations on the BasicGarnishData model ---- *)
+
+(* Basic keeps its registers as Register / RegisterRoot cells in the data block, so the worklist
+   of the traversal writes into the store it reads (a push appends a cell and may reallocate the
+   heap); the laws RegLaws above cannot hold for it.  Proofs/C16/ConcatInv.v re-proves the
+   traversal theorems from weaker laws ([RegLawsInv]: a state invariant, and "what was readable
+   stays readable"), Proofs/C16/ConcatBasic.v proves them for [basic_ops] ([basic_laws]).
+   [RegsOk s]: the C15 store invariant G and a well-formed register chain from cur_register.
+   [bframe s s']: the data table of s' is the one of s followed by register cells only, all
+   other tables and heads (value stack, frames, cursor) are unchanged.
+   Indexing a concatenation with k >= 0 and fuel >= concat_fuel t returns item k of the
+   flattening (None past the end, not an error); afterwards the invariant holds again,
+   cur_register is the very cell it was, the register values are the same, and every cell
+   that was in the data table is still there. *)
+Theorem C16_basic_concat_index : forall fuel addr tl tr s k,
+  RegsOk s -> denotes basic_ops s addr (Cat tl tr) -> concat_fuel (Cat tl tr) <= fuel ->
+  exists s', index_concatenation_for basic_ops fuel addr (Z.of_nat k) s = Ok (s', Done (nth_error (flatten (Cat tl tr)) k)) /\
+             RegsOk s' /\ cur_register s' = cur_register s /\ registers_rev s' = registers_rev s /\ bframe s s'.
+Proof. exact basic_concat_index. Qed.
+Print Assumptions C16_basic_concat_index.
+
+(* a negative index: no item *)
+Theorem C16_basic_concat_index_negative : forall fuel addr tl tr s z,
+  RegsOk s -> denotes basic_ops s addr (Cat tl tr) -> concat_fuel (Cat tl tr) <= fuel -> (z < 0)%Z ->
+  exists s', index_concatenation_for basic_ops fuel addr z s = Ok (s', Done None) /\
+             RegsOk s' /\ cur_register s' = cur_register s /\ registers_rev s' = registers_rev s /\ bframe s s'.
+Proof. exact basic_concat_index_negative. Qed.
+Print Assumptions C16_basic_concat_index_negative.
+
+(* symbol lookup: the value of the first pair keyed by the symbol in [lookup_order] (children of
+   a concatenation right to left, the items of a list leaf first to last); [bview T a] reads the
+   association an item denotes off the data table; [valid_item]: the item and the left of a
+   stored pair are addresses inside the data table *)
+Theorem C16_basic_concat_lookup : forall fuel sym addr tl tr s,
+  RegsOk s -> denotes basic_ops s addr (Cat tl tr) -> concat_fuel (Cat tl tr) <= fuel ->
+  (forall a, In a (lookup_order (Cat tl tr)) -> valid_item (data s) a) ->
+  exists s', access_with_symbol basic_ops fuel sym addr s =
+               Ok (s', Done (assoc_lookup sym (map (bview (data s)) (lookup_order (Cat tl tr))))) /\
+             RegsOk s' /\ cur_register s' = cur_register s /\ registers_rev s' = registers_rev s /\ bframe s s'.
+Proof. exact basic_concat_lookup. Qed.
+Print Assumptions C16_basic_concat_lookup.
+
+(* with distinct keys every key of every leaf is found *)
+Theorem C16_basic_concat_lookup_finds_every_key : forall fuel sym addr tl tr s a v,
+  RegsOk s -> denotes basic_ops s addr (Cat tl tr) -> concat_fuel (Cat tl tr) <= fuel ->
+  (forall a, In a (lookup_order (Cat tl tr)) -> valid_item (data s) a) ->
+  NoDup (keys_of (map (bview (data s)) (lookup_order (Cat tl tr)))) ->
+  In a (flatten (Cat tl tr)) -> bview (data s) a = Some (sym, v) ->
+  exists s', access_with_symbol basic_ops fuel sym addr s = Ok (s', Done (Some v)) /\
+             RegsOk s' /\ cur_register s' = cur_register s /\ registers_rev s' = registers_rev s /\ bframe s s'.
+Proof. exact basic_concat_lookup_found. Qed.
+Print Assumptions C16_basic_concat_lookup_finds_every_key.
+
+Theorem C16_basic_concat_fuel_suffices : forall fuel addr tl tr s,
+  RegsOk s -> denotes basic_ops s addr (Cat tl tr) -> concat_fuel (Cat tl tr) <= fuel ->
+  (forall z, index_concatenation_for basic_ops fuel addr z s <> OutOfFuel) /\
+  (forall sym, (forall a, In a (lookup_order (Cat tl tr)) -> valid_item (data s) a) ->
+     access_with_symbol basic_ops fuel sym addr s <> OutOfFuel).
+Proof. exact basic_concat_fuel_suffices. Qed.
+Print Assumptions C16_basic_concat_fuel_suffices.
+
+(* the weaker laws are implied by RegLaws, so the generic theorems above are instances too *)
+Theorem C16_concat_index_weak_laws : forall St (D : DataOps St) (L : RegLawsInv D) fuel addr tl tr s k,
+  il_inv L s -> denotes D s addr (Cat tl tr) -> concat_fuel (Cat tl tr) <= fuel ->
+  exists s', index_concatenation_for D fuel addr (Z.of_nat k) s = Ok (s', Done (nth_error (flatten (Cat tl tr)) k)) /\
+             il_inv L s' /\ il_stack L s' = il_stack L s /\ il_frame L s s'.
+Proof. exact @concat_index_inv. Qed.
+Print Assumptions C16_concat_index_weak_laws.
+
+(* non-vacuity: [ex_basic_store] is new_default followed by the model's own operations
+   [ex_basic_ops] (so G holds by the C15 theorems): lists 8 = (:5 = 7, 7) and
+   13 = (:12 = 9, :20 = 7), 18 = 8 <> 13, 20 = 18 <> (:5 = 9), registers [1; 4] already pushed,
+   29 of the 30 cells of the data block used.  The hypotheses hold; the model run with exactly
+   concat_fuel agrees with the flattening; the traversal reallocates the heap (block size
+   30 -> 40), leaves 4 dead register cells, and cur_register / the register values are restored. *)
+Example C16_ex_basic_concat :
+  let s := ex_basic_store in
+  RegsOk s /\ denotes basic_ops s 20 ex_btree20 /\ (forall a, In a (lookup_order ex_btree20) -> valid_item (data s) a) /\
+  flatten ex_btree20 = [2; 1; 5; 7; 19] /\ lookup_order ex_btree20 = [19; 5; 7; 2; 1] /\ concat_fuel ex_btree20 = 5 /\
+  registers_rev s = Ok [4; 1] /\ cur_register s = Some 28 /\ b_size (blk_data s) = 30 /\ b_cursor (blk_data s) = 29 /\
+  match index_concatenation_for basic_ops 5 20 2%Z s with
+  | Ok (s', r) => r = Done (Some 5) /\ cur_register s' = Some 28 /\ registers_rev s' = Ok [4; 1] /\
+                  b_size (blk_data s') = 40 /\ b_cursor (blk_data s') = 33 /\
+                  get_list_item 13 1%Z s' = Ok (Some 7)
+  | _ => False
+  end /\
+  outcome_of (index_concatenation_for basic_ops 5 20 0%Z s) = Some (Done (Some 2)) /\
+  outcome_of (index_concatenation_for basic_ops 5 20 4%Z s) = Some (Done (Some 19)) /\
+  outcome_of (index_concatenation_for basic_ops 5 20 5%Z s) = Some (Done None) /\
+  outcome_of (index_concatenation_for basic_ops 5 20 (-1)%Z s) = Some (Done None) /\
+  index_concatenation_for basic_ops 4 20 5%Z s = OutOfFuel /\
+  (* key 5 occurs twice: the rightmost leaf wins *)
+  outcome_of (access_with_symbol basic_ops 5 5%N 20 s) = Some (Done (Some 4)) /\
+  outcome_of (access_with_symbol basic_ops 5 12%N 20 s) = Some (Done (Some 4)) /\
+  outcome_of (access_with_symbol basic_ops 5 20%N 20 s) = Some (Done (Some 1)) /\
+  outcome_of (access_with_symbol basic_ops 5 99%N 20 s) = Some (Done None).
+Proof.
+  split; [apply ex_basic_regs|]. split; [apply ex_basic_den20|]. split; [apply ex_basic_valid20|].
+  vm_compute. repeat split; reflexivity.
+Qed.
+
+(* and the theorems applied to it *)
+Example C16_ex_basic_concat_by_theorem : forall k sym,
+  (exists s', index_concatenation_for basic_ops 5 20 (Z.of_nat k) ex_basic_store =
+                Ok (s', Done (nth_error [2; 1; 5; 7; 19] k)) /\
+              cur_register s' = Some 28 /\ registers_rev s' = Ok [4; 1]) /\
+  (exists s', access_with_symbol basic_ops 5 sym 20 ex_basic_store =
+                Ok (s', Done (assoc_lookup sym [Some (5%N, 4); Some (12%N, 4); Some (20%N, 1); Some (5%N, 1); None])) /\
+              cur_register s' = Some 28 /\ registers_rev s' = Ok [4; 1]).
+Proof.
+  intros k sym. split.
+  - destruct (C16_basic_concat_index 5 20 _ _ ex_basic_store k ex_basic_regs ex_basic_den20 (Nat.le_refl _))
+      as (s' & Hrun & _ & E1 & E2 & _).
+    exists s'. split; [exact Hrun|]. split; [rewrite E1|rewrite E2]; vm_compute; reflexivity.
+  - destruct (C16_basic_concat_lookup 5 sym 20 _ _ ex_basic_store ex_basic_regs ex_basic_den20 (Nat.le_refl _) ex_basic_valid20)
+      as (s' & Hrun & _ & E1 & E2 & _).
+    exists s'. split; [exact Hrun|]. split; [rewrite E1|rewrite E2]; vm_compute; reflexivity.
+Qed.
